@@ -30,6 +30,21 @@ def ChunksFit (f : FImg) : Prop := ∀ k d, f.chunks.lookup k = some d → d.len
 /-- sectors a file image needs: one per stored chunk and one T/S list per 122 chunk indices -/
 def sectorsNeeded (f : FImg) : Nat := f.chunks.length + (1 + (f.endIdx - 1) / 122)
 
+/-- the results of `write_file` after which the T/S list sector it had reserved stays marked used although no file
+leads to it: DISK FULL although enough sectors were free (the catalog has no free entry), RANGE ERROR (the file image
+has no type byte) -/
+def leakRes (res : R Nat) (f : FImg) (nf : Nat) : Prop :=
+  (res = .error .diskFull ∧ sectorsNeeded f ≤ nf) ∨ res = .error .range
+
+/-- what a `write_file` does to the C04 accounting: unless it is one of the two refusals of `leakRes`, a reading
+without lost units stays so; in those two cases exactly one free unit is lost and nothing else changes -/
+structure PutL (pre post : Vol) (res : R Nat) (f : FImg) (nf : Nat) : Prop where
+  tight : ¬ leakRes res f nf → pre.noLeak = true → post.noLeak = true
+  leak : leakRes res f nf → post.files = pre.files ∧ post.free + 1 = pre.free ∧ post.sys = pre.sys ∧ post.lo = pre.lo ∧ post.hi = pre.hi
+
+theorem PutL.same {v : Vol} {res : R Nat} {f : FImg} {nf : Nat} (h : ¬ leakRes res f nf) : PutL v v res f nf :=
+  ⟨fun _ h => h, fun hl => absurd hl h⟩
+
 /-! ## chunk matching -/
 
 theorem chunksMatch_iff' {s g : List (Nat × Bytes)} : chunksMatch s g = true ↔
@@ -174,7 +189,8 @@ theorem writeFile_ok {w : W} {sb : List Nat} {L : Lay} (hi : WInv w sb L) {f : F
     {ty : Nat} {tyr : Bytes} (hty : f.fsType = ty :: tyr) :
     ∃ wf L', writeFile f w = (.ok (sectorsNeeded f), wf) ∧ WInv wf sb L' ∧ wf.c = w.c ∧
       stepOk dosParams (volOf w.img w.c sb L) (.put (pathOfName fname) (putChunks f) 0 (ty % 128) 0) true
-        (volOf wf.img w.c sb L') = true := by
+        (volOf wf.img w.c sb L') = true ∧
+      ((volOf w.img w.c sb L).noLeak = true → (volOf wf.img w.c sb L').noLeak = true) := by
   have hok := hi.ok
   have haok := winv_aok hi
   have hc0 : 0 < w.c := by rcases hok.hc with e | e <;> omega
@@ -297,7 +313,7 @@ theorem writeFile_ok {w : W} {sb : List Nat} {L : Lay} (hi : WInv w sb L) {f : F
     (entsOfSec_update he7 (fun j hj hne => newSector_entry_other hbl he7 hfl hcl hj hne))
     hn0 hn1 (by rw [hn3]; exact hfb) (by rw [hn3]; exact hfresh) htt1
   have hcf : wf.c = w.c := hbuilt.hc
-  refine ⟨wf, _, ?_, hinv, hcf, ?_⟩
+  refine ⟨wf, _, ?_, hinv, hcf, ?_, by rw [hvol]; exact noLeak_inserted hfiles hfree⟩
   · unfold writeFile
     simp only [M.bind_apply, M.getV_apply, M.lift_apply, M.pure_apply, hch, if_false, hgts, hnum, hty, hfn]
     have hcond : ¬ (f.chunks.length + (1 + (f.endIdx - 1) / Vtoc.maxPairs w.v) > nfree w.v w.c) := by rw [hmp]; omega
@@ -333,7 +349,9 @@ theorem writeFile_reserved_fail {w : W} {sb : List Nat} {L : Lay} (hi : WInv w s
     (hspace : ¬ (f.chunks.length + (1 + (f.endIdx - 1) / Vtoc.maxPairs w.v) > nfree w.v w.c))
     (hfail : slotIn w.img w.c L.cat = none ∨ f.fsType = []) (op : FsOp) :
     ∃ er w', writeFile f w = (.error er, w') ∧ WInv w' sb L ∧ w'.c = w.c ∧
-      stepOk dosParams (volOf w.img w.c sb L) op false (volOf w'.img w.c sb L) = true := by
+      stepOk dosParams (volOf w.img w.c sb L) op false (volOf w'.img w.c sb L) = true ∧
+      (er = .diskFull ∨ er = .range) ∧ (volOf w'.img w.c sb L).files = (volOf w.img w.c sb L).files ∧
+      (volOf w'.img w.c sb L).free + 1 = (volOf w.img w.c sb L).free := by
   have hok := hi.ok
   have haok := winv_aok hi
   obtain ⟨o, hgts, hoi⟩ := getTslistSector_eval hi hfn
@@ -376,9 +394,15 @@ theorem writeFile_reserved_fail {w : W} {sb : List Nat} {L : Lay} (hi : WInv w s
   obtain ⟨hinvA, hfilesA⟩ := winv_taken hi htkA hlast
   have hstep : stepOk dosParams (volOf w.img w.c sb L) op false (volOf (w.withV vA).img w.c sb L) = true :=
     stepOk_refused_files hi.wf hinvA.wf hfilesA op
+  have hfreeA : (volOf (w.withV vA).img w.c sb L).free + 1 = (volOf w.img w.c sb L).free := by
+    show (freeOf (w.withV vA).img w.c).length + 1 = (freeOf w.img w.c).length
+    have e1 := freeOf_eq hokA
+    rw [show (w.withV vA).c = w.c from rfl, show (w.withV vA).v = vA from rfl] at e1
+    rw [e1, freeOf_eq hok]
+    exact nfree_taken htkA (unit_lt htt htsec) hTfree
   cases hslot : slotIn w.img w.c L.cat with
   | none =>
-    refine ⟨.diskFull, w.withV vA, ?_, hinvA, rfl, hstep⟩
+    refine ⟨.diskFull, w.withV vA, ?_, hinvA, rfl, hstep, Or.inl rfl, hfilesA, hfreeA⟩
     unfold writeFile
     simp only [M.bind_apply, M.getV_apply, M.lift_apply, M.pure_apply, hch, if_false, hgts, hnum, hspace, nextFreeM_apply, hnf, hal,
       hup, hslE, hslot]
@@ -400,7 +424,7 @@ theorem writeFile_reserved_fail {w : W} {sb : List Nat} {L : Lay} (hi : WInv w s
     have hrd : readSectorM (zeros 256) dt ds (w.withV vA) = (.ok (sec w.img ud), w.withV vA) := by
       rw [readSectorM_ok hokA ht' hs' (zeros_length' 256), show (w.withV vA).c = w.c from rfl, ← hue, withV_sec vA hne17]
     have hfs : fullSector (sec w.img ud) = .ok () := by unfold fullSector sectorSize; rw [if_neg (by omega)]
-    refine ⟨.range, w.withV vA, ?_, hinvA, rfl, hstep⟩
+    refine ⟨.range, w.withV vA, ?_, hinvA, rfl, hstep, Or.inr rfl, hfilesA, hfreeA⟩
     unfold writeFile
     simp only [M.bind_apply, M.getV_apply, M.lift_apply, M.pure_apply, hch, if_false, hgts, hnum, hspace, nextFreeM_apply, hnf, hal,
       hup, hslE, hslot, hrd, hfs, hty, M.fail_apply]
@@ -408,21 +432,23 @@ theorem writeFile_reserved_fail {w : W} {sb : List Nat} {L : Lay} (hi : WInv w s
 
 /-- **`put` refines the specification** (any number of T/S lists, holes, short chunks): accepted → exactly one record is
 inserted, on previously free sectors, reading back the stored chunks; refused (empty image, name in use, not
-enough free sectors, catalog full, no type) → the files are untouched and the volume stays well formed -/
+enough free sectors, catalog full, no type) → the files are untouched and the volume stays well formed.  C04 (`PutL`):
+no unit is lost, except by the two refusals that come after the T/S list sector has been reserved. -/
 theorem putM_refines {w : W} {sb : List Nat} {L : Lay} (hi : WInv w sb L) {f : FImg} (hfit : ChunksFit f)
     {fname : Bytes} (hfn : stringToFileName f.fullPath = .ok fname) (hfl : fname.length = 30) (hfb : ∀ x ∈ fname, 128 ≤ x ∧ x < 256) :
     ∃ res w' L', writeFile f w = (res, w') ∧ WInv w' sb L' ∧ w'.c = w.c ∧
       stepOk dosParams (volOf w.img w.c sb L) (.put (pathOfName fname) (putChunks f) 0 (f.fsType.getD 0 0 % 128) 0) (isOk res)
-        (volOf w'.img w.c sb L') = true := by
+        (volOf w'.img w.c sb L') = true ∧
+      PutL (volOf w.img w.c sb L) (volOf w'.img w.c sb L') res f (nfree w.v w.c) := by
   by_cases hch : f.chunks.length = 0
-  · refine ⟨.error .endOfData, w, L, ?_, hi, rfl, stepOk_refused_same hi.wf _⟩
+  · refine ⟨.error .endOfData, w, L, ?_, hi, rfl, stepOk_refused_same hi.wf _, PutL.same (by unfold leakRes; simp)⟩
     unfold writeFile
     simp only [M.bind_apply, M.getV_apply, hch, if_true, M.fail_apply]
   · obtain ⟨o, hgts, hoi⟩ := getTslistSector_eval hi hfn
     cases hf : findIn w.img w.c fname L.cat with
     | some x =>
       have ho : o ≠ none := fun e => by rw [hoi.1 e] at hf; cases hf
-      refine ⟨.error .writeProtected, w, L, ?_, hi, rfl, stepOk_refused_same hi.wf _⟩
+      refine ⟨.error .writeProtected, w, L, ?_, hi, rfl, stepOk_refused_same hi.wf _, PutL.same (by unfold leakRes; simp)⟩
       unfold writeFile
       simp only [M.bind_apply, M.getV_apply, hch, if_false, M.pure_apply, hgts]
       cases o with
@@ -433,25 +459,50 @@ theorem putM_refines {w : W} {sb : List Nat} {L : Lay} (hi : WInv w sb L) {f : F
       subst ho
       have hnum := numFree_eq hi.ok.vok
       by_cases hsp : f.chunks.length + (1 + (f.endIdx - 1) / Vtoc.maxPairs w.v) > nfree w.v w.c
-      · refine ⟨.error .diskFull, w, L, ?_, hi, rfl, stepOk_refused_same hi.wf _⟩
-        unfold writeFile
-        simp only [M.bind_apply, M.getV_apply, M.lift_apply, hch, if_false, M.pure_apply, hgts, hnum, hsp, if_true, M.fail_apply]
-      · cases hslot : slotIn w.img w.c L.cat with
+      · refine ⟨.error .diskFull, w, L, ?_, hi, rfl, stepOk_refused_same hi.wf _, PutL.same ?_⟩
+        · unfold writeFile
+          simp only [M.bind_apply, M.getV_apply, M.lift_apply, hch, if_false, M.pure_apply, hgts, hnum, hsp, if_true, M.fail_apply]
+        · rw [hi.ok.vPairs] at hsp
+          unfold leakRes sectorsNeeded
+          simp only [reduceCtorEq, or_false, Except.error.injEq, not_and, Nat.not_le]
+          intro _; exact hsp
+      · have hsp' : sectorsNeeded f ≤ nfree w.v w.c := by
+          rw [hi.ok.vPairs] at hsp; unfold sectorsNeeded; omega
+        cases hslot : slotIn w.img w.c L.cat with
         | none =>
-          obtain ⟨er, w', he, hinv, hc, hs⟩ := writeFile_reserved_fail hi hfn hch hf hsp (Or.inl hslot)
+          obtain ⟨er, w', he, hinv, hc, hs, her, hfs, hfr⟩ := writeFile_reserved_fail hi hfn hch hf hsp (Or.inl hslot)
             (.put (pathOfName fname) (putChunks f) 0 (f.fsType.getD 0 0 % 128) 0)
-          exact ⟨_, w', L, he, hinv, hc, hs⟩
+          have hlk : leakRes (.error er : R Nat) f (nfree w.v w.c) := by
+            rcases her with rfl | rfl
+            · exact Or.inl ⟨rfl, hsp'⟩
+            · exact Or.inr rfl
+          exact ⟨_, w', L, he, hinv, hc, hs, fun hn => absurd hlk hn, fun _ => ⟨hfs, hfr, rfl, rfl, rfl⟩⟩
         | some x =>
           obtain ⟨dt, ds, e⟩ := x
           cases hty : f.fsType with
           | nil =>
-            obtain ⟨er, w', he, hinv, hc, hs⟩ := writeFile_reserved_fail hi hfn hch hf hsp (Or.inr hty)
+            obtain ⟨er, w', he, hinv, hc, hs, her, hfs, hfr⟩ := writeFile_reserved_fail hi hfn hch hf hsp (Or.inr hty)
               (.put (pathOfName fname) (putChunks f) 0 (([] : Bytes).getD 0 0 % 128) 0)
-            exact ⟨_, w', L, he, hinv, hc, hs⟩
+            have hlk : leakRes (.error er : R Nat) f (nfree w.v w.c) := by
+              rcases her with rfl | rfl
+              · exact Or.inl ⟨rfl, hsp'⟩
+              · exact Or.inr rfl
+            exact ⟨_, w', L, he, hinv, hc, hs, fun hn => absurd hlk hn, fun _ => ⟨hfs, hfr, rfl, rfl, rfl⟩⟩
           | cons ty tyr =>
-            rw [hi.ok.vPairs] at hsp
-            obtain ⟨wf, L', he, hinv, hc, hs⟩ := writeFile_ok hi hfit hfn hfl hfb hch hf (by unfold sectorsNeeded; omega) hslot hty
-            exact ⟨_, wf, L', he, hinv, hc, by simpa using hs⟩
+            obtain ⟨wf, L', he, hinv, hc, hs, hnl⟩ := writeFile_ok hi hfit hfn hfl hfb hch hf hsp' hslot hty
+            exact ⟨_, wf, L', he, hinv, hc, by simpa using hs, fun _ => hnl, fun hl => by unfold leakRes at hl; simp at hl⟩
+
+/-- `get_next_directory_slot` on a state satisfying the invariant: the first free entry of the catalog chain, or
+DISK FULL when every entry of every catalog sector is in use; the state is not changed -/
+theorem nextDirectorySlot_eval {w : W} {sb : List Nat} {L : Lay} (hi : WInv w sb L) :
+    nextDirectorySlot w = (match slotIn w.img w.c L.cat with | some x => .ok x | none => .error .diskFull, w) := by
+  unfold nextDirectorySlot
+  simp only [M.bind_apply, M.getV_apply]
+  have hch : CatChain w.img w.c (Vtoc.track1 w.v) (Vtoc.sector1 w.v) L.cat := by
+    have h1 : Vtoc.track1 w.v = (vtocOf w.img w.c).getD 1 0 := by unfold Vtoc.track1; rw [getD_vtocOf hi.ok (by omega)]
+    have h2 : Vtoc.sector1 w.v = (vtocOf w.img w.c).getD 2 0 := by unfold Vtoc.sector1; rw [getD_vtocOf hi.ok (by omega)]
+    rw [h1, h2]; exact hi.desc.cat
+  exact slotLoop_ok hi.ok L.cat maxDirectoryReps _ _ (zeros 256) hch hi.catNe (Nat.le_of_lt hi.desc.catLen) (zeros_length' 256)
 
 /-- C04, acceptance clause for the concrete DOS model: a file image with at least one chunk, a type, a valid name
 not yet in the catalog, for which the catalog has a free entry and `sectorsNeeded f` (data sectors + one T/S list
